@@ -56,6 +56,14 @@ def cases(tier, rng, run):
             for kind in ("func:pos", "func:kw", "nt:pos", "dc:pos"):
                 out.append(Case(f"CALL\t{kind}\t-\t\tP|t|TO|{specs[0]};{specs[1]}|U:{vs[0]};{vs[1]}", "opt-tuple"))
             out.append(Case(f"CALL\tfunc:pos\t-\t\tP|x|S|FloatTensor,0,a|T,0:float32,2\tR|TO|{specs[0]};{specs[1]}|U:{vs[0]};{vs[1]}", "opt-tuple"))
+    # None in place of a WHOLE tuple whose hint has no `| None` (a function declared `-> tuple[A, B]` that forgets to return): never accepted
+    for specs in ("FloatTensor,0,a;FloatTensor,0,b", "FloatTensor,0,a", "FloatTensor,1,a;FloatTensor,0,a 2", "FloatTensor,0,a;-"):
+        for kind in ("func:pos", "func:kw", "nt:pos", "nt:kw", "dc:pos", "dc:kw"):
+            out.append(Case(f"CALL\t{kind}\t-\t\tP|t|T|{specs}|N", "tuple-none"))
+            out.append(Case(f"CALL\t{kind}\t-\t\tP|x|S|FloatTensor,0,a|T,0:float32,2\tP|t|T|{specs}|N", "tuple-none"))
+            if kind.startswith("func"):
+                out.append(Case(f"CALL\t{kind}\t-\t\tP|x|S|FloatTensor,0,a|T,0:float32,2\tR|T|{specs}|N", "tuple-none"))
+                out.append(Case(f"CALL\t{kind}\t-\t\tPD|t|T|{specs}|N", "tuple-none"))
     for k in ["2", "3", "6", "8", "9"]:
         for v in ["N", "T,0:float32,2.3"]:
             out.append(Case(f"CALL\tfunc:pos\t-\t\tP|x|S|FloatTensor,{k},a b|{v}", "union"))
@@ -84,6 +92,11 @@ def judge(case, impl_out, spec):
         if not impl_out.startswith("decor pyexc TypeError"):
             return "a union offering a dltype tensor next to a non-None alternative (or an unsupported base type) is not refused with TypeError at decoration: " + impl_out
         return None
+    if case.tag == "tuple-none":
+        end = callcommon.end_of(impl_out)
+        if end == "ok" or end.startswith("accept"):
+            return "None was accepted in place of a tuple whose hint has no `| None`: " + impl_out
+        return None
     c = ctxcommon.ctx_of(case)
     if c is None:
         return None
@@ -106,4 +119,4 @@ def judge(case, impl_out, spec):
 
 
 def nontrivial(case, impl_out):
-    return ",1," in case.line or ",4," in case.line or ",5," in case.line or ",7," in case.line or case.tag == "union"
+    return ",1," in case.line or ",4," in case.line or ",5," in case.line or ",7," in case.line or case.tag in ("union", "tuple-none")
